@@ -4,6 +4,7 @@
 (*   Trunc {len, r}     the same well-formed message cut at every length 0..len-1: r[i] = 1 decoded, 0 error     *)
 (*   Mut   {n, ok, err} n seeded single-byte mutations of it                                                     *)
 (*   Query {plan, res, id, rd, qr, counts, ques} DnsMessage::buildQuery output fed back into parse              *)
+(*   E2E   {plan, res, exc, answers}  the rendered plan answered over UDP to a real DnsTransport::query           *)
 (* res = "crash" (signal, sanitizer report: a read outside the exact-size buffer) or "hang" is never accepted.   *)
 (* A well-formed plan must decode to exactly its question, its records per section (owner, type, TTL) and its    *)
 (* typed records (every RDATA field, names expanded); DnsRecordsOps.AllowedRec has the rules for malformations. *)
@@ -21,14 +22,27 @@ Judge(ok) == IF ok THEN TRUE ELSE PrintT(<<"BAD", l>>)
 Dev_ARdataLooksLikePointer(plan, ev) ==
     /\ plan.mm = "exact" /\ ev.res = "err"
     /\ \E i \in 1..Len(plan.rrs) : PtrLikeA(plan.rrs[i])
+\* "skipped": the driver gave up on the rest of a shard after several crashed / hung cases; not judged
 EvRec == /\ IsEv("Rec")
-         /\ IF AllowedRec(Ev.plan, Ev) THEN TRUE
+         /\ IF Ev.res = "skipped" THEN PrintT(<<"SKIP", l>>)
+            ELSE IF AllowedRec(Ev.plan, Ev) THEN TRUE
             ELSE IF Dev_ARdataLooksLikePointer(Ev.plan, Ev) THEN PrintT(<<"DEV", "Dev_ARdataLooksLikePointer", l>>)
             ELSE PrintT(<<"BAD", l>>)
 EvTrunc == IsEv("Trunc") /\ Judge(Len(Ev.r) = Ev.len /\ \A i \in 1..Len(Ev.r) : Ev.r[i] \in {0, 1})
 EvMut == IsEv("Mut") /\ Judge(Ev.ok + Ev.err = Ev.n)
-EvQuery == IsEv("Query") /\ Judge(AllowedQuery(Ev.plan, Ev))
+EvQuery == IsEv("Query") /\ (IF Ev.res = "skipped" THEN PrintT(<<"SKIP", l>>) ELSE Judge(AllowedQuery(Ev.plan, Ev)))
+\* end to end: the plan was served over loopback UDP to a real DnsTransport::query, which returned ("ok", with `answers`
+\* records in the answer section) or threw ("err"); a crash or a query that never completes ("hang") is never accepted
+AllowedE2E(plan, ev) ==
+    /\ ev.res \in {"ok", "err"}
+    /\ (plan.mm = "exact" => ev.res = "ok" /\ ev.answers = Len(SelectSeq(plan.rrs, LAMBDA r : r.sec = 1)))
+    /\ (plan.mm \in {"oloop", "ooor"} => ev.res = "err")
+EvE2E == /\ IsEv("E2E")
+         /\ IF Ev.res = "skipped" THEN PrintT(<<"SKIP", l>>)
+            ELSE IF AllowedE2E(Ev.plan, Ev) THEN TRUE
+            ELSE IF Dev_ARdataLooksLikePointer(Ev.plan, Ev) THEN PrintT(<<"DEV", "Dev_ARdataLooksLikePointer", l>>)
+            ELSE PrintT(<<"BAD", l>>)
 EvReset == IsEv("Reset")
-Next == EvRec \/ EvTrunc \/ EvMut \/ EvQuery \/ EvReset
+Next == EvRec \/ EvTrunc \/ EvMut \/ EvQuery \/ EvE2E \/ EvReset
 Spec == Init /\ [][Next]_vars
 ====================================================================================
